@@ -3,6 +3,7 @@ package main
 import (
 	"fmt"
 	"go/ast"
+	"go/token"
 	"go/types"
 	"sort"
 	"strings"
@@ -11,7 +12,7 @@ import (
 func init() {
 	register(&propCheck{
 		id:   "C10",
-		pkgs: []string{"cue", "encoding/json", "internal/encoding/json", "pkg/encoding/json", "internal/encoding"},
+		pkgs: []string{"cue", "encoding/json", "internal/encoding/json", "pkg/encoding/json", "internal/encoding", "cue/literal"},
 		run:  checkC10,
 		about: "C10 (JSON in and out agrees with the standard): decides (a) on the value->JSON path strings and object keys are turned into JSON text only by internal/encoding/json.Marshal (no HTML-escaping json.Marshal of string data, no Go-syntax quoting such as strconv.Quote), and every json.Encoder that can receive CUE data has SetEscapeHTML called before Encode; " +
 			"(b) Value.appendJSON handles every concrete kind and returns an error for unresolved/non-concrete values before any kind-specific bytes are produced; (c) encoding/json.extract returns an expression only if json.Valid accepted the bytes and (*Decoder).extract only after a successful Decode; " +
@@ -25,6 +26,15 @@ func checkC10(c *Ctx) {
 	// errcheck-style baseline: a newly discarded error in the package is a dropped protocol/validation step
 	c.checkErrorDiscipline("errors.no-new-dropped-error", "encoding/json", map[string]string{
 	})
+	// the number and string literal parser every JSON number and string goes through
+	c.checkErrorDiscipline("errors.no-new-dropped-error/literal", "cue/literal", map[string]string{
+		"(*NumInfo).String|cue/literal.(*NumInfo).decimal":                                  "String has no error result; it renders whatever decimal produced (diagnostic text)",
+		"(*NumInfo).decimal|github.com/cockroachdb/apd/v3.(*Decimal).SetString":             "the argument is the constant \"0\"",
+		"(*NumInfo).decimal|github.com/cockroachdb/apd/v3.(*Context).Mul":                   "exact context, the multiplier is a table constant and a literal with a multiplier has no exponent part: no condition can arise",
+		"(*NumInfo).decimal|github.com/cockroachdb/apd/v3.(*Context).RoundToIntegralExact": "the condition (first result) is consulted; the error only repeats it",
+		"init|github.com/cockroachdb/apd/v3.(*Context).Mul":                                  "builds the table of multiplier constants",
+	})
+	c10NumberFinite(c)
 	// (a) string producers on the appendJSON path
 	goQuoters := map[string]bool{"strconv.Quote": true, "strconv.AppendQuote": true, "strconv.QuoteToASCII": true, "strconv.AppendQuoteToASCII": true,
 		"strconv.QuoteToGraphic": true, "strconv.AppendQuoteToGraphic": true, "cue/literal.Form.Quote": true, "cue/literal.Form.Append": true,
@@ -390,4 +400,80 @@ func c10KeyText(c *Ctx) {
 	okPlain := ok1 && len(missing) == 0 && strings.HasSuffix(plain, ".IndexToString(recv.safeIndex())") && !strings.Contains(plain, "Cut") && !strings.Contains(plain, "[")
 	c.check("encode.key-text-untruncated", f.Name+"/regular-label", f.Decl.Pos(), okPlain,
 		"for a label that is neither hidden nor let, IdentString must return the indexed string unmodified (member names containing U+0000 must not be cut); found "+plain+fmt.Sprintf(" (missing tests: %v)", missing))
+}
+
+
+// c10NumberFinite: a CUE number can be an infinity or a NaN (math.Log(0),
+// math.Sqrt(-1), strconv.ParseFloat("inf", 64)); apd prints those as
+// `Infinity` / `NaN`, which is not JSON. The number case of Value.appendJSON
+// must therefore test the decimal's Form before it appends the text.
+func c10NumberFinite(c *Ctx) {
+	f := c.fn("cue", "Value.appendJSON")
+	g := c.graph(f)
+	info := f.Info()
+	app := g.callNodes("github.com/cockroachdb/apd/v3.(*Decimal).Append", "github.com/cockroachdb/apd/v3.(*Decimal).MarshalText", "github.com/cockroachdb/apd/v3.(*Decimal).String", "github.com/cockroachdb/apd/v3.(*Decimal).Text")
+	if len(app) == 0 {
+		c.broken("anchor: Value.appendJSON no longer formats numbers through apd (Append/MarshalText/String/Text)")
+	}
+	formAtom := func(e ast.Expr) (bool, bool) {
+		be, ok := e.(*ast.BinaryExpr)
+		if !ok || (be.Op != token.EQL && be.Op != token.NEQ) {
+			return false, false
+		}
+		for i, s := range []ast.Expr{be.X, be.Y} {
+			sel, ok := ast.Unparen(s).(*ast.SelectorExpr)
+			if !ok || sel.Sel.Name != "Form" {
+				continue
+			}
+			other := []ast.Expr{be.Y, be.X}[i]
+			if tv, ok := info.Types[other]; ok && tv.Value != nil && tv.Value.String() == "0" { // apd.Finite == 0
+				return true, be.Op == token.NEQ
+			}
+		}
+		return false, false
+	}
+	k := 0
+	for _, id := range sortedKeys(app) {
+		// a call that only builds the text of the error being returned is not output
+		if rs, ok := g.Nodes[id].N.(*ast.ReturnStmt); ok && len(rs.Results) == 2 && !isNilIdent(rs.Results[1]) {
+			continue
+		}
+		k++
+		// the bytes are appended only across an edge on which Form == Finite is known
+		entry := g.Entry
+		seen := map[int]bool{entry: true}
+		work := []int{entry}
+		reached := false
+		for len(work) > 0 {
+			n := work[len(work)-1]
+			work = work[:len(work)-1]
+			if n == id {
+				reached = true
+				break
+			}
+			for _, e := range g.Nodes[n].Succs {
+				if e.Cond != nil {
+					if p := atomOnEdge(e.Cond, e.Truth, formAtom); p.present && p.good && !p.bad && !p.na {
+						continue
+					}
+				}
+				if !seen[e.To] {
+					seen[e.To] = true
+					work = append(work, e.To)
+				}
+			}
+		}
+		c.check("encode.number-finite-or-error", fmt.Sprintf("%s#%d", f.Name, k), g.pos(id), !reached,
+			"the text of a number may be appended to the JSON output only after its Form was tested to be apd.Finite: Infinity and NaN (math.Log(0), math.Sqrt(-1), strconv.ParseFloat(\"inf\", 64)) have no JSON spelling, and MarshalJSON would return invalid JSON with a nil error")
+	}
+	c.expect("encode.number-finite-or-error", 1)
+}
+
+func sortedKeys[V any](m map[int]V) []int {
+	var out []int
+	for k := range m {
+		out = append(out, k)
+	}
+	sortInts(out)
+	return out
 }
